@@ -25,7 +25,7 @@ RULE = ("one evaluation = one compress -> select -> decompress round trip on gen
         "rows drawn from >=2 different groups. Distinct: SHA-1 of (table shapes, column sets, selection, W, "
         "arrival order, compress-twice).")
 INTERLEAVING_MEASURE = "distinct (W, arrival order of compress jobs, lazy flag, compress-twice flag) tuples"
-PROBES = ["unordered_permuted", "w1_shared_mode", "wN_copy_mode", "compress_twice", "zero_row_group",
+PROBES = ["unordered_permuted", "w1_shared_mode", "wN_copy_mode", "compress_twice", "second_decompress", "zero_row_group",
           "boundary_selection", "repeated_rows", "mixed_column_sets", "multi_einsum", "lazy_calls",
           "real_table_runs", "real_table_groups", "real_table_rows", "big_table_runs"]
 REAL_EVERY = 96  # every REAL_EVERY-th seed uses real pmapping tables from make_pmappings
@@ -104,6 +104,9 @@ def gen_scenario(seed):
         "sel_seed": r.getrandbits(32),
         "tape_seed": r.getrandbits(48),
     }
+    # drawn last: history of two decompressions (two selection patterns) from one compression
+    sc["decompress_again"] = r.random() < 0.25
+    sc["pattern2"] = r.choice(["random", "single_group", "first_last", "repeated"])
     return sc
 
 
@@ -132,6 +135,8 @@ def simplify(sc):
         yield dict(sc, n_result=sc["n_result"] - 1)
     if sc["compress_twice"]:
         yield dict(sc, compress_twice=False)
+    if sc.get("decompress_again"):
+        yield dict(sc, decompress_again=False)
     if sc["W"] not in (1, 2):
         yield dict(sc, W=2)
     if sc["pattern"] != "random":
@@ -210,7 +215,11 @@ def execute(sc, tape):
     viols = []
     info = {"probes": {}}
 
+    pass_no = 0
+
     def bad(cls, detail):
+        if pass_no:
+            detail = "[second decompress from the same DecompressData] " + detail
         viols.append({"class": cls, "key": cls, "detail": detail})
 
     e2g, truth = _build(sc)
@@ -273,72 +282,81 @@ def execute(sc, tape):
                         return viols, info
         index_of[name] = {v: k for k, v in seen.items()}
 
-    # ---- the harness plays the joiner
+    # ---- the harness plays the joiner (once, or twice from one compression: decompress_pmappings
+    # must leave the DecompressData usable for another selection pattern)
     r = random.Random(sc["sel_seed"])
     n_res = sc["n_result"]
-    sel = {}
-    for e in sc["einsums"]:
-        name = e["name"]
-        allrows = [(gi, ri) for gi, g in enumerate(e["groups"]) for ri in range(g["rows"])]
-        if not allrows:
-            info["empty_einsum"] = True
-            return viols, info  # an Einsum without any pmapping cannot be joined; nothing to check
-        pat = sc["pattern"]
-        if pat == "single_group":
-            gi = r.choice(sorted({a[0] for a in allrows}))
-            cand = [a for a in allrows if a[0] == gi]
-        elif pat in ("first_last", "boundaries"):
-            cand = []
-            for gi, g in enumerate(e["groups"]):
-                if g["rows"]:
-                    cand += [(gi, 0), (gi, g["rows"] - 1)]
-            info["probes"]["boundary_selection"] = 1
-        else:
-            cand = allrows
-        picks = [r.choice(cand) for _ in range(n_res)]
-        if pat == "repeated" and n_res > 1:
-            picks = [picks[0]] * n_res
-            info["probes"]["repeated_rows"] = 1
-        sel[name] = picks
-    cols = {f"{n}<SEP>{COMP}": [index_of[n][p] for p in sel[n]] for n in names}
-    cols["Total<SEP>energy"] = [float(10 + i) for i in range(n_res)]
-    joined = _S["PmappingDataframe"](pd.DataFrame(cols), n_total_pmappings=n_res, n_valid_pmappings=n_res,
-                                     ignored_resources=set(), drop_valid_reservations=False, skip_pareto=True)
-    try:
-        out = cp.decompress_pmappings(joined, dd).data
-    except Exception as e:
-        bad("decompress_exception", f"{type(e).__name__}: {str(e)[:300]}")
-        return viols, info
-    if len(out) != n_res:
-        bad("row_count", f"decompressed table has {len(out)} rows, joined table had {n_res}")
-        return viols, info
-    left = [c for c in out.columns if COMP in c]
-    if left:
-        bad("leftover_index_col", f"columns {left} survive decompression")
-    if [float(x) for x in out["Total<SEP>energy"]] != cols["Total<SEP>energy"]:
-        bad("row_order", "joined rows were reordered by decompression")
-        return viols, info
-    for e in sc["einsums"]:
-        name = e["name"]
-        all_nj = {f"{name}<SEP>{c}" for g in e["groups"] for c in g["nonjoin"]}
-        for k, (gi, ri) in enumerate(sel[name]):
-            g = e["groups"][gi]
-            mine = {f"{name}<SEP>{c}" for c in g["nonjoin"]}
-            for c in mine:
-                if c not in out.columns:
-                    bad("decompress_cells", f"result row {k}: column {c} missing")
-                    return viols, info
-                got = out[c].iloc[k]
-                want = truth[name][(gi, ri)][c]
-                if not _eq(got, want):
-                    bad("decompress_cells", f"result row {k} Einsum {name} (source group {gi} row {ri}) "
-                        f"col {c}: {got!r} != {want!r}")
-                    return viols, info
-            for c in all_nj - mine:
-                if c in out.columns and not _isnull(out[c].iloc[k]):
-                    bad("decompress_foreign_cell", f"result row {k} Einsum {name} col {c} holds "
-                        f"{out[c].iloc[k]!r} but source group {gi} has no such column")
-                    return viols, info
+    passes = 2 if sc.get("decompress_again") else 1
+    first_sel = None
+    for pass_no in range(passes):
+        if pass_no == 1:
+            info["probes"]["second_decompress"] = 1
+        sel = {}
+        for e in sc["einsums"]:
+            name = e["name"]
+            allrows = [(gi, ri) for gi, g in enumerate(e["groups"]) for ri in range(g["rows"])]
+            if not allrows:
+                info["empty_einsum"] = True
+                return viols, info  # an Einsum without any pmapping cannot be joined; nothing to check
+            pat = sc["pattern"] if pass_no == 0 else sc.get("pattern2", "random")
+            if pat == "single_group":
+                gi = r.choice(sorted({a[0] for a in allrows}))
+                cand = [a for a in allrows if a[0] == gi]
+            elif pat in ("first_last", "boundaries"):
+                cand = []
+                for gi, g in enumerate(e["groups"]):
+                    if g["rows"]:
+                        cand += [(gi, 0), (gi, g["rows"] - 1)]
+                info["probes"]["boundary_selection"] = 1
+            else:
+                cand = allrows
+            picks = [r.choice(cand) for _ in range(n_res)]
+            if pat == "repeated" and n_res > 1:
+                picks = [picks[0]] * n_res
+                info["probes"]["repeated_rows"] = 1
+            sel[name] = picks
+        cols = {f"{n}<SEP>{COMP}": [index_of[n][p] for p in sel[n]] for n in names}
+        cols["Total<SEP>energy"] = [float(10 + i) for i in range(n_res)]
+        joined = _S["PmappingDataframe"](pd.DataFrame(cols), n_total_pmappings=n_res, n_valid_pmappings=n_res,
+                                         ignored_resources=set(), drop_valid_reservations=False, skip_pareto=True)
+        try:
+            out = cp.decompress_pmappings(joined, dd).data
+        except Exception as e:
+            bad("decompress_exception", f"{type(e).__name__}: {str(e)[:300]}")
+            return viols, info
+        if len(out) != n_res:
+            bad("row_count", f"decompressed table has {len(out)} rows, joined table had {n_res}")
+            return viols, info
+        left = [c for c in out.columns if COMP in c]
+        if left:
+            bad("leftover_index_col", f"columns {left} survive decompression")
+        if [float(x) for x in out["Total<SEP>energy"]] != cols["Total<SEP>energy"]:
+            bad("row_order", "joined rows were reordered by decompression")
+            return viols, info
+        for e in sc["einsums"]:
+            name = e["name"]
+            all_nj = {f"{name}<SEP>{c}" for g in e["groups"] for c in g["nonjoin"]}
+            for k, (gi, ri) in enumerate(sel[name]):
+                g = e["groups"][gi]
+                mine = {f"{name}<SEP>{c}" for c in g["nonjoin"]}
+                for c in mine:
+                    if c not in out.columns:
+                        bad("decompress_cells", f"result row {k}: column {c} missing")
+                        return viols, info
+                    got = out[c].iloc[k]
+                    want = truth[name][(gi, ri)][c]
+                    if not _eq(got, want):
+                        bad("decompress_cells", f"result row {k} Einsum {name} (source group {gi} row {ri}) "
+                            f"col {c}: {got!r} != {want!r}")
+                        return viols, info
+                for c in all_nj - mine:
+                    if c in out.columns and not _isnull(out[c].iloc[k]):
+                        bad("decompress_foreign_cell", f"result row {k} Einsum {name} col {c} holds "
+                            f"{out[c].iloc[k]!r} but source group {gi} has no such column")
+                        return viols, info
+        if first_sel is None:
+            first_sel = sel
+    sel = first_sel
     info["sel"] = sel
     return viols, info
 
